@@ -1,6 +1,6 @@
 (* SchedC14.v — the C14 statements in the form exported by props/C14.v (reachable states =
    states after any history from the initial state). *)
-From Bac Require Import Base Deferred DeferredFacts Sched SchedFacts SchedThms SchedOrder SchedRun.
+From Bac Require Import Base Deferred DeferredFacts Sched SchedFacts SchedThms SchedPassive SchedOrder SchedRun.
 From Coq Require Import Permutation Sorted ZifyBool ZifyN ZifyNat.
 Open Scope Z_scope.
 
@@ -20,13 +20,22 @@ Proof.
   apply e_lt_spec. apply H0, Hx.
 Qed.
 
-Lemma c14_fire_order : forall guard jit c s s' ev, 0 <= jit -> reachable guard jit c s ->
+Lemma c14_fire_order : forall guard jit c s s' ev, passive_cfg c -> passive_dq s -> 0 <= jit -> reachable guard jit c s ->
   (run_once guard jit c s = (s', ev) \/ run guard jit c s = (s', ev)) ->
   StronglySorted key_lt (fired ev) /\ forall k, In k (fired ev) -> e_when k <= now s.
 Proof.
-  intros guard jit c s s' ev Hj Hr [H|H]; apply reachable_inv in Hr.
-  - destruct (run_once_ordered _ _ _ _ _ _ Hj Hr H) as [Hs Hk]. split; [apply sorted_key_lt, Hs | exact Hk].
-  - destruct (run_ordered _ _ _ _ _ _ Hj Hr H) as [Hs Hk]. split; [apply sorted_key_lt, Hs | exact Hk].
+  intros guard jit c s s' ev Hc Hp Hj Hr [H|H]; apply reachable_inv in Hr.
+  - destruct (run_once_ordered _ _ _ _ _ _ Hc Hp Hj Hr H) as [Hs Hk]. split; [apply sorted_key_lt, Hs | exact Hk].
+  - destruct (run_ordered _ _ _ _ _ _ Hc Hp Hj Hr H) as [Hs Hk]. split; [apply sorted_key_lt, Hs | exact Hk].
+Qed.
+
+(* any program: at every firing, the entry fired is smaller than everything that stays queued *)
+Lemma c14_fire_least_pending : forall guard jit c ops s ev, run_ops guard jit c st0 ops = (s, ev) ->
+  forall e rest, In (EvPop e rest) ev -> forall y, In y rest -> key_lt e y.
+Proof.
+  intros guard jit c ops s ev H e rest Hin y Hy.
+  pose proof (run_ops_pop_min _ _ _ _ _ _ _ Inv_st0 H) as Hf. rewrite Forall_forall in Hf.
+  apply e_lt_spec. exact (Hf _ Hin y Hy).
 Qed.
 
 Lemma c14_fire_is_min : forall guard jit c s e s1 z, reachable guard jit c s ->
@@ -47,22 +56,15 @@ Lemma c14_once_per_install : forall guard jit c ops s ev, run_ops guard jit c st
   NoDup (map e_seq (fired ev)).
 Proof. intros. eapply reach_once; eassumption. Qed.
 
-Definition installs (i : nat) (o : op) : bool :=
-  match o with Install j _ | InstallAfter j _ | Reinstall j | Resume j => Nat.eqb j i | _ => false end.
-
 Lemma c14_suspend_cancels : forall guard jit c s i ops s' ev, reachable guard jit c s ->
-  forallb (fun o => negb (installs i o)) ops = true ->
   run_ops guard jit c s (Suspend i :: ops) = (s', ev) ->
-  forall due n at_, ~ In (EvFire i due n at_) ev.
+  has_inst i ev = false -> forall due n at_, ~ In (EvFire i due n at_) ev.
 Proof.
-  intros guard jit c s i ops s' ev Hr Ha H due n at_ Hin. apply reachable_inv in Hr.
-  cbn [run_ops step] in H. destruct (run_ops guard jit c (tm_suspend s i) ops) as [s2 ev2] eqn:R.
-  inversion H; subst. cbn [app] in Hin.
+  intros guard jit c s i ops s' ev Hr H Hno due n at_ Hin. apply reachable_inv in Hr.
+  cbn [run_ops step do_act lift] in H. destruct (run_ops guard jit c (tm_suspend s i) ops) as [s2 ev2] eqn:R.
+  inversion H; subst. cbn [app] in Hin, Hno.
   destruct (suspend_removes s i Hr) as [Hni _].
-  assert (Ha' : forallb (op_allowed (fun j => negb (Nat.eqb j i))) ops = true).
-  { rewrite forallb_forall in *. intros o Ho. specialize (Ha o Ho). destruct o; cbn in *; try reflexivity; exact Ha. }
-  destruct (run_ops_quiet _ _ _ _ _ _ _ _ Hni Ha' R) as [_ Hq].
-  apply (Hq _ Hin). reflexivity.
+  apply (run_ops_quiet _ _ _ _ _ _ _ _ Hni R Hno _ Hin). reflexivity.
 Qed.
 
 Lemma c14_reinstall_moves : forall guard jit c s, reachable guard jit c s ->
@@ -85,7 +87,7 @@ Lemma c14_recurring_slots : forall jit iv off, 0 < iv -> 0 <= jit ->
   (jit < iv -> forall k, next_slot jit iv off (off + iv * k) = off + iv * (k + 1)) /\
   (forall k t, off + iv * k <= t + jit < off + iv * (k + 1) -> next_slot jit iv off t = off + iv * (k + 1)) /\
   (* and that is what process_task queues for a task that does not raise *)
-  (forall guard c s e s1 z s2 ev r, reachable guard jit c s -> get_next_task s = (Some e, s1, z) ->
+  (forall guard c s e s1 z s2 ev r, passive_cfg c -> passive_dq s -> reachable guard jit c s -> get_next_task s = (Some e, s1, z) ->
      process_task jit c s1 e = (s2, ev, r) -> t_kind (cfg_get c (e_tid e)) = Recurring iv off ->
      t_raises (cfg_get c (e_tid e)) = false ->
      In (next_slot jit iv off (now s), ctr s, e_tid e) (heap s2)).
@@ -98,8 +100,8 @@ Proof.
     + apply next_slot_after; assumption.
   - intros Hlt k. apply next_slot_successive; lia.
   - intros k t Hb. apply next_slot_late; assumption.
-  - intros guard c s e s1 z s2 ev r Hr G P K Hnr. apply reachable_inv in Hr.
-    exact (proj2 (recurring_requeued _ _ _ _ _ _ _ _ _ _ _ Hr G P K Hnr Hiv)).
+  - intros guard c s e s1 z s2 ev r Hc Hp Hr G P K Hnr. apply reachable_inv in Hr.
+    exact (proj2 (recurring_requeued _ _ _ _ _ _ _ _ _ _ _ Hc Hr Hp G P K Hnr Hiv)).
 Qed.
 
 Lemma c14_deferred_once_in_order : forall q,
@@ -114,30 +116,117 @@ Lemma c14_deferred_unguarded_partial : forall fuel q,
   forallb (fun d => negb (d_raises d)) (f_all q) = true -> drain false fuel q = drain true fuel q.
 Proof. intros. apply drain_noraise. assumption. Qed.
 
-Lemma c14_task_exception_isolated : forall jit c s, 0 <= jit -> reachable true jit c s ->
-  (* the raising callback itself: nothing else leaves the queue, its deferred work is queued *)
+Lemma c14_task_exception_isolated : forall jit c s, passive_cfg c -> passive_dq s -> 0 <= jit -> reachable true jit c s ->
   (forall e s1, t_raises (cfg_get c (e_tid e)) = true ->
      process_task jit c s1 e = (set_dq s1 (dq s1 ++ t_defers (cfg_get c (e_tid e))), [fire_of s1 e], true)) /\
-  (* a pass loses nothing: every entry is still queued or has fired *)
   (forall s' ev, run_once true jit c s = (s', ev) -> forall x, In x (heap s) -> In x (heap s') \/ In x (fired ev)) /\
-  (* a pass terminates within its fuel and either clears everything due or, having logged an
-     exception, leaves strictly fewer due entries *)
   (forall s' ev, run_once true jit c s = (s', ev) ->
      ~ In (EvErr OutOfFuel) ev /\
      (due_count s' = 0%nat \/ (In EvRaise ev /\ (due_count s' < due_count s)%nat))) /\
-  (* so (number due + 1) passes fire every entry that was due, whichever tasks raise *)
   (forall s' ev, run_ops true jit c s (repeat RunOnce (S (due_count s))) = (s', ev) ->
      forall x, In x (heap s) -> e_when x <= now s -> In x (fired ev)).
 Proof.
-  intros jit c s Hj Hr. apply reachable_inv in Hr. split; [|split; [|split]].
-  - intros e s1 H. apply process_task_raising, H.
-  - intros s' ev H. exact (run_once_conserves _ _ _ _ _ _ Hr H).
-  - intros s' ev H. destruct (run_once_progress _ _ _ _ _ Hj Hr H) as [H1 [_ [_ H2]]]. split; assumption.
-  - intros s' ev H. exact (due_tasks_fire_despite_raises _ _ _ _ _ Hj Hr H).
+  intros jit c s Hc Hp Hj Hr. apply reachable_inv in Hr. split; [|split; [|split]].
+  - intros e s1 H. apply process_task_raising; assumption.
+  - intros s' ev H. exact (run_once_conserves _ _ _ _ _ _ Hc Hp Hr H).
+  - intros s' ev H. destruct (run_once_progress _ _ _ _ _ Hc Hp Hj Hr H) as [H1 [_ [_ [_ H2]]]]. split; assumption.
+  - intros s' ev H. exact (due_tasks_fire_despite_raises _ _ _ _ _ Hc Hp Hj Hr H).
 Qed.
 
-Lemma c14_run_fires_all_due : forall jit c s s' ev, 0 <= jit -> reachable true jit c s ->
+Lemma c14_run_fires_all_due : forall jit c s s' ev, passive_cfg c -> passive_dq s -> 0 <= jit -> reachable true jit c s ->
   run true jit c s = (s', ev) ->
   ~ In (EvErr OutOfFuel) ev /\ dq s' = [] /\ due_count s' = 0%nat /\
   forall x, In x (heap s) -> e_when x <= now s -> In x (fired ev).
-Proof. intros jit c s s' ev Hj Hr H. apply reachable_inv in Hr. exact (run_fires_all_due _ _ _ _ _ Hj Hr H). Qed.
+Proof. intros jit c s s' ev Hc Hp Hj Hr H. apply reachable_inv in Hr. exact (run_fires_all_due _ _ _ _ _ Hc Hp Hj Hr H). Qed.
+
+(* ---------- the deferred loop of the model (any program) calls what the pure loop calls ---------- *)
+Definition calls_of (ev : list event) : list nat :=
+  flat_map (fun x => match x with EvCall i => [i] | _ => [] end) ev.
+
+Lemma calls_of_app : forall a b, calls_of (a ++ b) = calls_of a ++ calls_of b.
+Proof. intros. apply flat_map_app. Qed.
+
+Lemma tm_suspend_dq : forall s i, dq (tm_suspend s i) = dq s.
+Proof. intros s i. unfold tm_suspend. destruct (remove_tid i (heap s)); reflexivity. Qed.
+
+Lemma tm_install_dq : forall s i s', tm_install s i = Ok s' -> dq s' = dq s.
+Proof.
+  intros s i s' H. unfold tm_install in H. destruct (ttime s i); [|discriminate].
+  destruct (sched s i); inversion H; subst; cbn [dq]; [apply tm_suspend_dq | reflexivity].
+Qed.
+
+Lemma do_act_dq : forall jit c s a s' ev, do_act jit c s a = Ok (s', ev) -> dq s' = dq s /\ calls_of ev = [].
+Proof.
+  intros jit c s a s' ev H. destruct (do_act_cases _ _ _ _ _ _ H) as [[i [-> ->]]|[i [f [_ [T ->]]]]].
+  - split; [apply tm_suspend_dq | reflexivity].
+  - split; [rewrite (tm_install_dq _ _ _ T); reflexivity | reflexivity].
+Qed.
+
+Lemma run_acts_dq : forall jit c l s s' ev x, run_acts jit c s l = (s', ev, x) -> dq s' = dq s /\ calls_of ev = [].
+Proof.
+  induction l as [|a l IH]; intros s s' ev x H; cbn [run_acts] in H.
+  - inversion H; subst. split; reflexivity.
+  - destruct (do_act jit c s a) as [[s1 ev1]|] eqn:A.
+    + destruct (run_acts jit c s1 l) as [[s2 ev2] x2] eqn:R. inversion H; subst.
+      destruct (do_act_dq _ _ _ _ _ _ A) as [Hd Hc]. destruct (IH _ _ _ _ R) as [Hd2 Hc2].
+      split; [congruence | rewrite calls_of_app, Hc, Hc2; reflexivity].
+    + inversion H; subst. split; reflexivity.
+Qed.
+
+Lemma call_batch_s_calls : forall jit c b s s' ev x, call_batch_s true jit c s b = (s', ev, x) ->
+  x = false /\ dq s' = dq s ++ flat_map d_spawns b /\ calls_of ev = map d_id b.
+Proof.
+  induction b as [|d b IH]; intros s s' ev x H; cbn [call_batch_s] in H.
+  - inversion H; subst. rewrite app_nil_r. repeat split.
+  - destruct (run_acts jit c (set_dq s (dq s ++ d_spawns d)) (d_acts d)) as [[s2 ev2] failed] eqn:RA.
+    destruct (run_acts_dq _ _ _ _ _ _ _ RA) as [Hd Hc]. cbn [dq set_dq] in Hd.
+    rewrite andb_false_r in H.
+    destruct (call_batch_s true jit c s2 b) as [[s3 ev3] x3] eqn:R. inversion H; subst.
+    destruct (IH _ _ _ _ R) as [-> [Hd3 Hc3]]. split; [reflexivity|]. split.
+    + rewrite Hd3, Hd. cbn [flat_map]. rewrite app_assoc. reflexivity.
+    + change (calls_of ([EvCall (d_id d)] ++ (ev2 ++ (if failed || d_raises d then [EvRaise] else [])) ++ ev3)
+              = map d_id (d :: b)).
+      rewrite !calls_of_app, Hc, Hc3. cbn [map calls_of flat_map app].
+      destruct (failed || d_raises d); reflexivity.
+Qed.
+
+Lemma sdrain_calls : forall jit c fuel s s' ev x, (f_size (dq s) <= fuel)%nat ->
+  sdrain true jit c fuel s = (s', ev, x) ->
+  exists L, drain true fuel (dq s) = (L, [], DDone) /\ x = false /\ dq s' = [] /\ calls_of ev = map d_id L.
+Proof.
+  induction fuel as [|f IH]; intros s s' ev x Hf H; cbn [sdrain] in H.
+  - destruct (dq s) as [|d0 q0] eqn:Q.
+    + inversion H; subst. exists []. repeat split. exact Q.
+    + cbn [f_size] in Hf. pose proof (d_size_pos d0). lia.
+  - destruct (dq s) as [|d0 q0] eqn:Q.
+    + inversion H; subst. exists []. repeat split. exact Q.
+    + destruct (call_batch_s true jit c (set_dq s []) (d0 :: q0)) as [[s1 ev1] x1] eqn:B.
+      destruct (call_batch_s_calls _ _ _ _ _ _ _ B) as [-> [Hd1 Hc1]]. cbn [dq set_dq app] in Hd1.
+      destruct (sdrain true jit c f s1) as [[s2 ev2] x2] eqn:R. inversion H; subst.
+      assert (Hsz : (f_size (dq s1) <= f)%nat).
+      { rewrite Hd1. pose proof (f_size_spawns (d0 :: q0)) as Hs. cbn [length] in Hs. lia. }
+      destruct (IH _ _ _ _ Hsz R) as [L' [HL' [-> [Hd2 Hc2]]]].
+      cbn [drain]. rewrite call_batch_guarded. rewrite <- Hd1, HL'.
+      exists ((d0 :: q0) ++ L'). split; [reflexivity|]. split; [reflexivity|]. split; [exact Hd2|].
+      rewrite calls_of_app, Hc1, Hc2, map_app. reflexivity.
+Qed.
+
+(* with the guard, whatever the callbacks do to the schedule: the deferred loop ends with an
+   empty queue, and the functions it called are — in order — those the pure loop calls *)
+Lemma c14_deferred_loop_calls : forall jit c s s' ev x, do_drain true jit c s = (s', ev, x) ->
+  exists L, drain_all true (dq s) = (L, [], DDone) /\ x = false /\ dq s' = [] /\ calls_of ev = map d_id L.
+Proof. intros jit c s s' ev x H. unfold do_drain in H. exact (sdrain_calls _ _ _ _ _ _ _ (le_n _) H). Qed.
+
+(* the finding: a recurring task that suspends itself inside its own callback is re-installed by
+   process_task and fires again although nobody installed or resumed it *)
+Definition self_suspender : cfg := [mkT (Recurring 10 0) false [] [ASuspend 0]].
+Lemma c14_self_suspend_refuted :
+  exists ops a b d due n at_ due' n' at',
+    t_acts (cfg_get self_suspender 0) = [ASuspend 0] /\
+    snd (run_ops true 1 self_suspender st0 ops) = a ++ EvFire 0 due n at_ :: b ++ EvFire 0 due' n' at' :: d /\
+    forallb (fun x => negb (is_inst 0 x) || match x with EvInst _ auto => auto | _ => false end) b = true.
+Proof.
+  exists [Reinstall 0; ToDue; Poll; ToDue; Poll], [EvInst 0 false; EvPop (10, 0%N, 0%nat) []],
+         [EvInst 0 true; EvPop (20, 1%N, 0%nat) []], [EvInst 0 true], 10, 0%N, 10, 20, 1%N, 20.
+  vm_compute. repeat split.
+Qed.
